@@ -12,11 +12,13 @@ theorem facts_C17 : holdsAll expectedC17 = true := by decide
 variables of the packages this property's code lives in, the functions (other than `init`) that
 assign to them or call methods on them, and the fields of the property's struct types. The model is
 a pure function of the arguments and of these fields; a new variable, writer or field is state the
-model does not know of. The digest-valued entries cover, per package: every declared function and
-method with its receiver kind (`funcs:`), every function-reads-package-variable pair (`reads:`) and
-every write through a parameter or receiver, including in-place `sort.*`/`copy` (`pwrites:`); the
-lists behind the digests are in `funcs_expected.txt` and in comments of the generated file. -/
-def stateC17 : List (String × String) := [("globals:scale", ""), ("globalwrites:scale", ""), ("fields:scale.Linear", "Min:float64 Max:float64 Base:int Clamp:bool"), ("fields:scale.Log", "private:struct{} Min:float64 Max:float64 Base:int Clamp:bool"), ("fields:scale.TickOptions", "Max:int MinLevel:int MaxLevel:int"), ("fields:scale.linearTicker", "s:*Linear roundOut:bool"), ("fields:scale.logTicker", "s:*Log roundOut:bool"), ("funcs:scale", "n=30 fnv64a=3b5173cc62d6c994"), ("reads:scale", "n=0 fnv64a=cbf29ce484222325"), ("pwrites:scale", "n=5 fnv64a=057ec4379b47763f")]
+model does not know of. The digest-valued `shape:` entry covers everything the call graph
+(resolved by go/types) reaches from the functions declared in the property's anchor files: per
+function, method (with receiver kind), package variable and constant, its numeric literals, the
+package variables it reads and its writes through parameters or the receiver (including in-place
+`sort.*`/`copy`/`append`). The entries behind the digest are in `shape_expected.txt` and in a
+comment of the generated file. -/
+def stateC17 : List (String × String) := [("globals:scale", ""), ("globalwrites:scale", ""), ("fields:scale.Linear", "Min:float64 Max:float64 Base:int Clamp:bool"), ("fields:scale.Log", "private:struct{} Min:float64 Max:float64 Base:int Clamp:bool"), ("fields:scale.TickOptions", "Max:int MinLevel:int MaxLevel:int"), ("fields:scale.linearTicker", "s:*Linear roundOut:bool"), ("fields:scale.logTicker", "s:*Log roundOut:bool"), ("shape:C17", "n=33 fnv64a=cad1536e6170f6e3")]
 
 /-- the source has exactly the package-level variables, writers and struct fields the model accounts for -/
 theorem state_C17 : holdsAll stateC17 = true := by decide +kernel
